@@ -12,8 +12,18 @@ RULE = ('two case shapes. (1) history: (class in {UpperSemiLattice, LowerSemiLat
         '(add / remove by value / del by index) and an order of its inner (non-extreme) concepts; ConceptLattice.add / '
         '.remove / del one at a time from [top, bottom] resp. from the full lattice; after every step the result is '
         'compared with ConceptLattice(batch list) (== both ways, cover relation as sets of concepts, top and bottom '
-        'concept) and with the Lean model/spec as in (1). non-trivial = the history contains a mutation (1) / the '
-        'lattice has an inner concept (2); distinct = distinct case')
+        'concept) and with the Lean model/spec as in (1). (3) reads at chosen points only (streams h1-*): the op '
+        '`dicts` reads children_dict / parents_dict / descendants_dict / ancestors_dict of the LIVE object (and what '
+        'the library derives from them: to_networkx up/down; for a ConceptLattice also .T and the arcs of write_json) '
+        'and .top/.bottom; between two such reads the history mutates the structure (add incl. fill_up_cache=False / '
+        'remove / del; replace an element, take one out and put it back, two out two in: net size change zero) and '
+        'nothing is read; `dicts 1` also empties the returned dictionaries / appends to the returned tops list (they '
+        'are the caller\'s objects); `alias` = the caller goes on mutating the list it passed to the constructor; '
+        'concept lattices also start from the object handed out by from_context (Lindig: pre-filled re-indexed '
+        'caches; CbO) and from an unsorted batch list. Every read must be the Fresh answer for the CURRENT elements '
+        '(for the Lean model a `dicts` read is the sequence of the per-index queries the properties make). '
+        'non-trivial = the history contains a mutation (1,3) / the lattice has an inner concept (2); distinct = '
+        'distinct case')
 _ALPHA = ('alphabet at a semilattice with elements E (n = len(E)): add(e, fill=True) for each of the 8 subsets (present '
           'ones included: re-adding, e.g. the top itself), add(e, fill=False) for each absent e and for the present top / '
           'bottom element, del i for i in 0..n '
@@ -28,21 +38,33 @@ EXHAUSTIVE = {
              'accepted start sets that are representatives of the atom-permutation orbits, cache on (and cache off '
              'for representatives of <= 2 elements); ' + _ALPHA +
              ' concept lattices: every distinct extent family of the tables with n,m <= 3, all orders of the <= 5 inner '
-             'concepts (120 seeded orders beyond) x {add, remove, del}',
+             'concepts (120 seeded orders beyond) x {add, remove, del}; reads at chosen points (h1-dicts): every '
+             'accepted start set of <= 3 subsets x 3 classes, cache on, every sequence of 2 accepted effective mutations '
+             '(add absent, del, remove; fill on, and off for orbit representatives) with reads before+after; for orbit '
+             'representatives also reads at all three points, returned dictionaries emptied, cache off; 3 mutations '
+             '(representatives of <= 2 elements) with reads at both ends and at one intermediate point; concept '
+             'lattices (h1-cl-roundtrip*): per extent family up to 40 of: remove/del + re-add of every inner concept, '
+             'replace a by b and two-out-two-in for every ordered pair, from the batch list, the reversed list, the '
+             'from_context objects (Lindig, CbO)',
     'thorough': 'as quick, with length 3 over all accepted start sets (cache on and off; orbit representatives also '
                 'listed descending), the full alphabet in positions 1-2 and length 4 (positions 1-3: mutations + '
                 'fill_up_caches + tops + bottoms) for orbit representatives of <= 2 elements, cache on; concept lattices: every distinct extent family of the '
-                'tables with n*m <= 12 (n,m <= 4), all orders of <= 5 inner concepts, 200 seeded orders beyond',
+                'tables with n*m <= 12 (n,m <= 4), all orders of <= 5 inner concepts, 200 seeded orders beyond; '
+                'h1-dicts as quick with all read patterns for every start set, 3 mutations for every start set, 4 '
+                'mutations with net size change zero for representatives of <= 2 elements; h1-cl-roundtrip up to 400 '
+                'per family',
 }
 EXPLANATION = ('the constructor outcome, the outcome class of every operation, the element SET, the element denoted by '
-               'top/bottom and every order answer are pinned uniquely by the specification (Lean: Spec.refusal, '
-               'Spec.greatest, Fresh), so implementation != specification on them is a property failure; the position '
-               'of elements in the list (append at the end, erase in place) is fixed by the model only '
-               '(correspondence). Lean: Fca.C11.ctor_iff_unique_extreme, rejected_ops_noop, extreme_index_correct '
-               '(InvTop is preserved by every accepted step, for all histories) are proved for the code-shaped model; '
-               'incremental_eq_batch is proved for the element set and the extreme elements, its order-query part '
-               'inherits the restriction of C09 (cached add(.., fill_up_cache=True) is covered by the verified '
-               'checker invCheck run on the model state after every step, not by a step theorem)')
+               'top/bottom and every order answer (also when read through the *_dict properties, to_networkx, .T, '
+               'write_json) are pinned uniquely by the specification (Lean: Spec.refusal, Spec.greatest, Fresh), so '
+               'implementation != specification on them is a property failure; the position of elements in the list '
+               '(append at the end, erase in place) is fixed by the model only (correspondence). Lean, all FULL: '
+               'Fca.C11.ctor_iff_unique_extreme, rejected_ops_noop, extreme_index_correct(+_history), '
+               'ctor_establishes_invariant, step_full and all_histories (for every history in the documented range '
+               'from a constructed semilattice - every add incl. fill_up_cache on/off, del, remove, refused or not, '
+               'every query - the model output is the specification and a non-refused mutation never raises), '
+               'incremental_eq_batch, incremental_sets, incremental_eq_batch_order (leq, descendants/ancestors, cover '
+               'relation, == through elements, independent of the listing order)')
 ASSUMPTIONS = ['start elements pairwise distinct; leq is a partial order on all elements used',
                'index arguments of queries and of del are non-negative (documented API); out-of-range del is part of the '
                'alphabet (IndexError)',
@@ -140,9 +162,63 @@ def apply_op(P, op, enc=None):
         if nm == 'fill':
             P.fill_up_caches()
             return None
+        if nm == 'dicts':
+            return read_dicts(P, mutate=len(op) > 1 and bool(op[1]))
         raise RuntimeError('harness: unknown op %r' % (op,))
     except ERRS as e:
         return {'err': type(e).__name__}
+
+
+DICTS = ('children', 'parents', 'descendants', 'ancestors')
+_CL_NAMES = [None]          # (object names, attribute names) of the context of the concept lattice under test
+
+
+def read_dicts(P, mutate=False):
+    """read the four `*_dict` properties of the LIVE object (and what the library derives from them: the networkx
+    graph; for a ConceptLattice the transposed lattice `.T`, built from `parents_dict`); with `mutate` the returned
+    dictionaries are emptied afterwards by the caller (a hostile but legal use: they are the caller's objects)"""
+    out = {}
+    for rel in DICTS:
+        try:
+            d = getattr(P, rel + '_dict')
+            out[rel] = [[int(k), sorted(int(v) for v in d[k])] for k in sorted(d)]
+            if mutate:
+                try:
+                    d.clear()
+                except (TypeError, AttributeError):
+                    pass
+        except ERRS as e:
+            out[rel] = {'err': type(e).__name__}
+    if mutate:
+        for nm in ('tops', 'bottoms'):
+            try:
+                getattr(P, nm).append(-1)
+            except ERRS:
+                pass
+    try:
+        G = P.to_networkx('down')
+        out['nx_down'] = {'nodes': sorted(int(v) for v in G.nodes), 'edges': sorted([int(a), int(b)] for a, b in G.edges)}
+        G = P.to_networkx('up')
+        out['nx_up'] = {'nodes': sorted(int(v) for v in G.nodes), 'edges': sorted([int(a), int(b)] for a, b in G.edges)}
+    except ModuleNotFoundError:
+        pass
+    except ERRS as e:
+        out['nx_down'] = {'err': type(e).__name__}
+    if hasattr(P, 'T') and hasattr(P, 'is_monotone'):           # a ConceptLattice
+        try:
+            T = P.T
+            cd = T.children_dict
+            out['T_children'] = [[int(k), sorted(int(v) for v in cd[k])] for k in sorted(cd)]
+        except ERRS as e:
+            out['T_children'] = {'err': type(e).__name__}
+        if _CL_NAMES[0] is not None and len(P) >= 3:
+            try:
+                import json
+                arcs = json.loads(P.write_json(*_CL_NAMES[0]))[2]['Arcs']
+                out['json_arcs'] = sorted([int(a['S']), int(a['D'])] for a in arcs)
+            except ERRS as e:
+                out['json_arcs'] = {'err': type(e).__name__}
+    return out
 
 
 def observe(P, in_place=False):
@@ -150,9 +226,9 @@ def observe(P, in_place=False):
     return [apply_op(Q, o) for o in obs_ops(len(Q))]
 
 
-def snap(P, cls, dec=None):
+def snap(P, cls, dec=None, extremes=True):
     d = {'elems': [int(x) if dec is None else dec(x) for x in P.elements]}
-    for side in HAS[cls]:
+    for side in (HAS[cls] if extremes else ()):
         try:
             d[side] = int(getattr(P, side))
         except ERRS as e:
@@ -166,9 +242,10 @@ def _run_history(P, c, cls, enc=None, dec=None, after_step=None):
     steps = []
     last = len(c['ops']) - 1
     mode = c.get('observe', 'all')
+    sparse = bool(c.get('sparse'))       # .top/.bottom are read at the chosen points (`dicts`, `top`, `bottom`, end) only
     for k, op in enumerate(c['ops']):
         st = {'out': apply_op(P, op, enc)}
-        st.update(snap(P, cls, dec))
+        st.update(snap(P, cls, dec, extremes=(not sparse) or k == last or op[0] == 'dicts'))
         if mode == 'all':
             st['obs'] = observe(P)
         elif mode == 'last' and k == last:
@@ -185,10 +262,15 @@ def _run_history(P, c, cls, enc=None, dec=None, after_step=None):
 def impl_hist(c):
     from fcapy.poset.lattice import UpperSemiLattice, LowerSemiLattice, Lattice
     K = {'upper': UpperSemiLattice, 'lower': LowerSemiLattice, 'lattice': Lattice}[c['cls']]
+    arg = list(c['elems'])
     try:
-        P = K(list(c['elems']), LEQ[c['order']], use_cache=bool(c['use_cache']))
+        P = K(arg, LEQ[c['order']], use_cache=bool(c['use_cache']))
     except ERRS as e:
         return {'init_err': type(e).__name__}
+    if c.get('alias'):                   # the caller goes on using (and changing) the list it passed
+        arg.reverse()
+        arg.append(arg[0])
+        del arg[:1]
     return {'init': snap(P, c['cls']), 'steps': _run_history(P, c, c['cls'])}
 
 
@@ -224,8 +306,25 @@ def impl_cl(c):
             d['cover_ctx'] = cover(L)
             d['top_ctx'], d['bottom_ctx'] = _mask(L[L.top]), _mask(L[L.bottom])
         return d
+    start = c.get('start', 'list')
+    _CL_NAMES[0] = (list(K.object_names), list(K.attribute_names))
     try:
-        P = ConceptLattice([by_mask[m] for m in c['elems']])
+        if start == 'list':
+            arg = [by_mask[m] for m in c['elems']]
+            P = ConceptLattice(arg)
+            if c.get('alias'):
+                arg.reverse()
+                arg.pop()
+        else:
+            # the object the library itself hands out: Lindig (pre-filled, re-indexed caches, cached top/bottom)
+            # or CbO (built from the sorted list, lazy caches)
+            P = {'ctx-lindig': lambda: ConceptLattice.from_context(K, algo='Lindig'),
+                 'ctx-cbo': lambda: ConceptLattice.from_context(K, algo='CbO')}[start]()
+            got = [_mask(x) for x in P.elements]
+            if got != list(c['elems']):
+                raise RuntimeError('harness: %s lists the concepts as %r, the case expects %r' % (start, got, c['elems']))
+            by_mask = {_mask(x): x for x in P.elements}
+            rank = {m: i for i, m in enumerate(by_mask)}
     except ERRS as e:
         return {'init_err': type(e).__name__}
     return {'init': snap(P, 'lattice', _mask),
@@ -237,9 +336,55 @@ def impl(c):
 
 
 # ------------------------------------------------------------------------------------------ Lean side
+def expand_ops(c):
+    """the operations sent to the Lean driver + for every operation of the case the span of driver steps it became.
+    A read of the `*_dict` properties is, for the model, the sequence of the per-index queries the properties make
+    (`{i: self.children(i) for i in range(len(self))}` ...)."""
+    E = list(c['elems'])
+    lean_ops, spans = [], []
+    for op in c['ops']:
+        a = len(lean_ops)
+        if op[0] == 'dicts':
+            lean_ops += [[rel, i] for rel in DICTS for i in range(len(E))]
+        else:
+            lean_ops.append(op)
+        spans.append((a, len(lean_ops)))
+        E = next_elems(c['cls'], c['order'], E, op)
+    return lean_ops, spans
+
+
 def requests(c):
     return [dict(op='C11.run', cls=c['cls'], order=c['order'], elems=c['elems'], use_cache=bool(c['use_cache']),
-                 ops=c['ops'], observe=c.get('observe', 'all'), state=False)]
+                 ops=expand_ops(c)[0], observe=c.get('observe', 'all'), state=False)]
+
+
+def _cmp_dicts(c, k, op, got, sms, n):
+    """a read of the *_dict properties (and what is derived from them) against the Fresh answers"""
+    for sm in sms:
+        if not sm['ok'] or sm['out'] != sm['fresh']:
+            return (k, 'dicts', 'harness', f'step {k} {op}: model {sm["out"]} != spec {sm["fresh"]}')
+    if not isinstance(got, dict) or 'err' in got:
+        return (k, 'dicts', 'property', f'step {k} {op}: reading the *_dict properties gave {got}')
+    want = {rel: [[i, sms[r * n + i]['fresh']] for i in range(n)] for r, rel in enumerate(DICTS)}
+    for rel in DICTS:
+        if got.get(rel) != want[rel]:
+            return (k, 'dict:' + rel, 'property',
+                    f'step {k} {op}: {rel}_dict = {got.get(rel)} but over the current elements '
+                    f'{_elems_after(c, k)} a fresh structure has {want[rel]}')
+    for nm, rel in (('nx_down', 'children'), ('nx_up', 'parents')):
+        if nm in got:
+            w = {'nodes': list(range(n)), 'edges': sorted([i, j] for i, js in want[rel] for j in js)}
+            if got[nm] != w:
+                return (k, 'dict:' + nm, 'property', f'step {k} {op}: to_networkx graph {got[nm]}, expected {w}')
+    if 'json_arcs' in got:
+        w = sorted([i, j] for i, js in want['children'] for j in js)
+        if got['json_arcs'] != w:
+            return (k, 'dict:json', 'property', f'step {k} {op}: write_json lists the arcs {got["json_arcs"]}, the '
+                                                f'cover relation is {w}')
+    if 'T_children' in got and got['T_children'] != want['parents']:
+        return (k, 'dict:T', 'property', f'step {k} {op}: the children of the transposed lattice .T are '
+                                         f'{got["T_children"]}, the parents relation is {want["parents"]}')
+    return None
 
 
 def _elems_after(c, k):
@@ -268,7 +413,22 @@ def _first_divergence(c, io, rep):
     d = _cmp_state(c, -1, ['init'], io['init'], r['init'], list(c['elems']), True)
     if d is not None:
         return d
-    for k, (op, si, sm) in enumerate(zip(c['ops'], io['steps'], r['steps'])):
+    spans = expand_ops(c)[1]
+    for k, (op, si) in enumerate(zip(c['ops'], io['steps'])):
+        a, b = spans[k]
+        if b == a:                       # cannot happen: a semilattice is never empty
+            return (k, 'dicts', 'harness', f'step {k} {op}: empty expansion')
+        sm = r['steps'][b - 1]
+        if op[0] == 'dicts':
+            if sm['ok']:
+                d = _cmp_dicts(c, k, op, si['out'], r['steps'][a:b], (b - a) // len(DICTS))
+                if d is None:
+                    d = _cmp_state(c, k, op, si, sm, sm['spec_elems'], True)
+                if d is None and si.get('batch') is not None:
+                    d = _cmp_batch(c, k, op, si['batch'], si, sm)
+                if d is not None:
+                    return d
+            continue
         if sm['ok']:
             if sm['out'] != sm['fresh']:
                 return (k, 'out', 'harness', f'step {k} {op}: model {sm["out"]} != spec {sm["fresh"]}')
@@ -313,6 +473,8 @@ def _cmp_state(c, k, op, si, sm, spec_elems, valid):
         return (k, 'elems', kind, f'after step {k} {op}: implementation elements {si["elems"]}, expected {spec_elems}')
     if valid:
         for side in HAS[cls]:
+            if side not in si:
+                continue                 # not read at this point (sparse reads)
             want = greatest(order, si['elems'], side)
             if si[side] != want:
                 return (k, side, 'property', f'after step {k} {op}: .{side} = {si[side]} but the '
@@ -320,7 +482,7 @@ def _cmp_state(c, k, op, si, sm, spec_elems, valid):
                                              f'has index {want} (cached: {si.get("c" + side)})')
     else:
         for side in HAS[cls]:
-            if si[side] != sm['m' + side]:
+            if side in si and si[side] != sm['m' + side]:
                 return (k, side, 'correspondence', f'after step {k} {op}: .{side} implementation {si[side]} '
                                                    f'model {sm["m" + side]}')
     if 'obs' in si and 'obs' in sm:
@@ -409,8 +571,9 @@ def branch(c, io, rep):
         E = si['elems']
     # diagnostic only: the private cached indexes against the model's
     if c['use_cache'] and 'steps' in r:
-        same = all(si.get('ctop') == sm.get('ctop') and si.get('cbottom') == sm.get('cbottom')
-                   for si, sm in zip(io['steps'], r['steps']))
+        spans = expand_ops(c)[1]
+        same = all(si.get('ctop') == r['steps'][b - 1].get('ctop') and si.get('cbottom') == r['steps'][b - 1].get('cbottom')
+                   for si, (a, b) in zip(io['steps'], spans) if b > a)
         out.append('cached-index:equal' if same else 'cached-index:differ')
     return out
 
@@ -731,6 +894,192 @@ def _random_cl(tier, rng, boost):
             yield c
 
 
+# ---- H1: the *_dict properties (and what is derived from them) read at CHOSEN points only
+def effective(cls, order, E, fills=(True, False), universe=None):
+    """the mutations that are accepted and change the element set"""
+    out = []
+    for e in (U3 if universe is None else universe):
+        if e not in E:
+            for f in fills:
+                op = ['add', e, f]
+                if refusal(cls, order, E, op) is None:
+                    out.append(op)
+    for i in range(len(E)):
+        if refusal(cls, order, E, ['del', i]) is None:
+            out.append(['del', i])
+            out.append(['remove', E[i]])
+    return out
+
+
+def _with_reads(seq, reads, mutate=False):
+    """insert a `dicts` read before position p of the mutation sequence for every p in `reads`
+    (p = len(seq): after the last mutation); the first read may empty the returned dictionaries"""
+    ops, first = [], True
+    for p in range(len(seq) + 1):
+        if p in reads:
+            ops.append(['dicts', 1] if (mutate and first) else ['dicts'])
+            first = False
+        if p < len(seq):
+            ops.append(seq[p])
+    return ops
+
+
+def _h1_sequences(cls, E, length, fills):
+    def rec(E, k, acc):
+        if k == length:
+            yield list(acc)
+            return
+        for op in effective(cls, 'subset', E, fills):
+            acc.append(op)
+            yield from rec(next_elems(cls, 'subset', E, op), k + 1, acc)
+            acc.pop()
+    yield from rec(list(E), 0, [])
+
+
+def _h1_exhaustive(tier, boost):
+    level = 2 if tier == 'thorough' else (1 if boost else 0)
+    base = dict(order='subset', observe='last', sparse=True)
+    for cls in CLASSES:
+        for k in range(1, 4):
+            for s in itertools.combinations(U3, k):
+                E = list(s)
+                if not accepted(cls, 'subset', E):
+                    continue
+                rep = list(_orbit_rep(s)) == E
+                # two mutations (replace an element, take one out and put it back, ...): read before and after only,
+                # read at every point, read with the returned dictionaries emptied by the caller
+                for seq in _h1_sequences(cls, E, 2, (True, False) if rep else (True,)):
+                    yield dict(base, stream='h1-dicts', cls=cls, elems=E, use_cache=True, ops=_with_reads(seq, {0, 2}))
+                    if rep or level:
+                        yield dict(base, stream='h1-dicts', cls=cls, elems=E, use_cache=True,
+                                   ops=_with_reads(seq, {0, 1, 2}))
+                        yield dict(base, stream='h1-dicts', cls=cls, elems=E, use_cache=True,
+                                   ops=_with_reads(seq, {0, 2}, mutate=True))
+                        yield dict(base, stream='h1-dicts', cls=cls, elems=E[::-1], use_cache=False,
+                                   ops=_with_reads(seq, {0, 2}, mutate=True)) if k == 1 else \
+                            dict(base, stream='h1-dicts', cls=cls, elems=E, use_cache=False, ops=_with_reads(seq, {0, 2}))
+                # three mutations, reads at both ends and at one chosen intermediate point
+                if (rep and k <= 2) or level == 2:
+                    for seq in _h1_sequences(cls, E, 3, (True,)):
+                        for reads in ({0, 3}, {0, 1, 3}, {0, 2, 3}):
+                            yield dict(base, stream='h1-dicts-len3', cls=cls, elems=E, use_cache=True,
+                                       ops=_with_reads(seq, reads))
+                # four mutations with net size change zero, reads at both ends
+                if level == 2 and rep and k <= 2:
+                    for seq in _h1_sequences(cls, E, 4, (True,)):
+                        if len(_elems_after(dict(cls=cls, order='subset', elems=E, ops=seq), 3)) == len(E):
+                            yield dict(base, stream='h1-dicts-len4', cls=cls, elems=E, use_cache=True,
+                                       ops=_with_reads(seq, {0, 4}))
+
+
+def _h1_random(tier, rng, boost):
+    n = 300 if tier == 'quick' else 6000
+    if boost:
+        n *= 2
+    for k in range(n):
+        cls = CLASSES[k % 3]
+        order = 'subset' if (k // 3) % 2 == 0 else 'divides'
+        universe = list(range(16)) if order == 'subset' else \
+            rng.choice([[1, 2, 3, 4, 6, 8, 9, 12, 18, 24, 27, 36, 54, 72, 108, 216],
+                        [1, 2, 3, 4, 6, 12, 24, 48, 240, 5, 10, 20, 60, 120, 8, 16]])
+        E = _valid_start(rng, cls, order, universe, rng.randint(2, 8))
+        if not accepted(cls, order, E):
+            continue
+        use_cache = rng.random() < 0.85
+        ops = [['dicts']] if rng.random() < 0.8 else []
+        cur = list(E)
+        for _ in range(rng.randint(1, 14)):
+            r = rng.random()
+            eff = effective(cls, order, cur, (True, True, False), universe)
+            if r < 0.12:
+                ops.append(['dicts', 1] if rng.random() < 0.3 else ['dicts'])
+                continue
+            if r < 0.22:
+                op = _random_history(rng, cls, order, universe, cur, use_cache, 1)[0]     # anything, incl. refused
+                ops.append(op)
+                cur = next_elems(cls, order, cur, op)
+                continue
+            if not eff:
+                continue
+            # a replacement keeps the size: take one out, put one in (possibly the same one back)
+            outs = [o for o in eff if o[0] != 'add']
+            if r < 0.75 and outs:
+                o1 = rng.choice(outs)
+                gone = cur[o1[1]] if o1[0] == 'del' else o1[1]
+                nxt = next_elems(cls, order, cur, o1)
+                ins = [o for o in effective(cls, order, nxt, (True, True, False), universe) if o[0] == 'add']
+                back = ['add', gone, rng.random() < 0.8]
+                o2 = back if (rng.random() < 0.4 or not ins) else rng.choice(ins)
+                pair = [o1, o2] if rng.random() < 0.7 else [o2, o1]
+                for o in pair:
+                    if refusal(cls, order, cur, o) is None:
+                        ops.append(o)
+                        cur = next_elems(cls, order, cur, o)
+            else:
+                o = rng.choice(eff)
+                ops.append(o)
+                cur = next_elems(cls, order, cur, o)
+        ops.append(['dicts'])
+        yield dict(stream='h1-dicts-random', cls=cls, order=order, elems=E, use_cache=use_cache, ops=ops,
+                   observe='last', sparse=rng.random() < 0.8, alias=rng.random() < 0.3)
+
+
+def _h1_cl(rows, rng, stream, max_cases):
+    """concept lattices: read, change with net size zero (remove + re-add, replace), read again; the batch
+    comparison runs after every step as in the other concept-lattice streams"""
+    fam = extent_family(rows)
+    n = len(rows)
+    top = (1 << n) - 1
+    bottom = min(fam, key=lambda x: bin(x).count('1'))
+    inner = [x for x in fam if x not in (top, bottom)]
+    base = dict(kind='cl', cls='lattice', order='subset', use_cache=True, rows=rows, observe='last', stream=stream,
+                sparse=True)
+    cases = []
+    # the lattice object handed out by from_context (listing order of `sort_concepts`), and an unsorted batch list
+    ctx_order = sorted(fam, key=lambda x: (-bin(x).count('1'), ','.join(str(g) for g in range(n) if x >> g & 1)))
+    for a in inner:
+        for start, lst in (('ctx-lindig', ctx_order), ('ctx-cbo', ctx_order), ('list', list(fam)[::-1])):
+            b0 = dict(base, start=start, elems=list(lst), stream=stream + ('-' + start if start != 'list' else '-unsorted'),
+                      alias=(start == 'list'))
+            cases.append(dict(b0, ops=[['dicts'], ['remove', a], ['add', a, True], ['dicts']]))
+            cases.append(dict(b0, ops=[['remove', a], ['dicts'], ['add', a, False], ['top'], ['dicts', 1], ['dicts']]))
+    for a in inner:
+        cases.append(dict(base, elems=list(fam), ops=[['dicts'], ['remove', a], ['add', a, True], ['dicts']]))
+        cases.append(dict(base, elems=list(fam), ops=[['dicts'], ['del', fam.index(a)], ['add', a, True], ['dicts', 1],
+                                                       ['dicts']]))
+        for b in inner:
+            if a == b:
+                continue
+            rest = [x for x in fam if x != b]
+            # replace a by b
+            cases.append(dict(base, elems=rest, ops=[['dicts'], ['remove', a], ['add', b, True], ['dicts']]))
+            cases.append(dict(base, elems=rest, ops=[['dicts'], ['add', b, True], ['remove', a], ['remove', b],
+                                                     ['add', a, False], ['dicts']]))
+            # two out, two back in the other order
+            cases.append(dict(base, elems=list(fam), ops=[['dicts'], ['remove', a], ['remove', b], ['add', a, True],
+                                                          ['add', b, True], ['dicts']]))
+    if len(cases) > max_cases:
+        cases = rng.sample(cases, max_cases)
+    yield from cases
+
+
+def _h1_cl_all(tier, rng, boost):
+    import gen as G
+    thorough = tier == 'thorough' or boost
+    seen = set()
+    tabs = G.tables_upto(4, 4, cells=12) if thorough else G.tables_upto(3, 3)
+    for rows in tabs:
+        k = (len(rows), tuple(extent_family(rows)))
+        if k in seen:
+            continue
+        seen.add(k)
+        yield from _h1_cl(rows, rng, 'h1-cl-roundtrip', 400 if thorough else 40)
+    for _ in range(10 if not thorough else 200):
+        rows = G.random_table(rng, 5, 4, nmin=2, mmin=2)
+        if 3 <= len(extent_family(rows)) <= 10:
+            yield from _h1_cl(rows, rng, 'h1-cl-roundtrip-random', 12)
+
+
 def _corpus():
     import glob
     import json
@@ -745,6 +1094,9 @@ def _corpus():
 def gen(tier, seed, boost=False):
     rng = random.Random(seed * 1000003 + 1111)
     yield from _corpus()
+    yield from _h1_cl_all(tier, random.Random(seed * 1000003 + 1112), boost)
+    yield from _h1_random(tier, random.Random(seed * 1000003 + 1113), boost)
+    yield from _h1_exhaustive(tier, boost)
     yield from _exhaustive_cl(tier, rng, boost)
     yield from _exhaustive_hist(tier, boost)
     yield from _random(tier, rng, boost)
